@@ -564,6 +564,149 @@ fn literal_elements(st: &mut Stats) {
     }
 }
 
+/// Sets that are (almost) ALONE in their environment: made with `BDDSet::new` (the set is the
+/// only owner of its environment), or with `with_env` while the caller keeps zero, one or two
+/// handles of the environment, with or without a sibling set. Histories of insert / empty /
+/// universe / union with a one-element set / clone-and-drop; after every step all memberships are
+/// compared with a reference set. (An environment that tidies itself up when it believes nobody
+/// else is looking must still answer correctly afterwards.)
+fn lone_set_histories(st: &mut Stats, seed: u64, first: u64, count: u64) {
+    use std::collections::BTreeSet;
+    for h in first..first + count {
+        st.evals += 1;
+        let case = json!({"kind": "lone", "seed": seed, "history": h});
+        util::budget(50_000_000, 1000);
+        let r = guarded(move || -> Result<(usize, String), String> {
+            let mut rng = Rng::stream(seed, "C19.lone", h);
+            let bits = [1usize, 2, 3, 4, 6][rng.usize(5)];
+            let ownership = rng.usize(6);
+            let universe = 1usize << bits;
+            let mut keep: Vec<Rc<BDDEnv<usize>>> = Vec::new();
+            let mut sibling: Option<(BDDSet, BTreeSet<usize>)> = None;
+            let s = match ownership {
+                0 => BDDSet::new(bits),
+                1 => {
+                    let env = Rc::new(BDDEnv::new());
+                    BDDSet::with_env(bits, &env)
+                }
+                2 => {
+                    let env = Rc::new(BDDEnv::new());
+                    let s = BDDSet::with_env(bits, &env);
+                    keep.push(env);
+                    s
+                }
+                3 => {
+                    let env = Rc::new(BDDEnv::new());
+                    let s = BDDSet::with_env(bits, &env);
+                    keep.push(Rc::clone(&env));
+                    keep.push(env);
+                    s
+                }
+                4 => {
+                    let env = Rc::new(BDDEnv::new());
+                    let s = BDDSet::with_env(bits, &env);
+                    let sib = BDDSet::with_env(bits, &env);
+                    let e = rng.usize(universe);
+                    sib.insert(e);
+                    sibling = Some((sib, [e].into_iter().collect()));
+                    s
+                }
+                _ => {
+                    let env = Rc::new(BDDEnv::new());
+                    let s = BDDSet::with_env(bits, &env);
+                    let sib = BDDSet::with_env(bits, &env);
+                    sibling = Some((sib, BTreeSet::new()));
+                    keep.push(env);
+                    s
+                }
+            };
+            let mut model: BTreeSet<usize> = BTreeSet::new();
+            let mut trace: Vec<String> = vec![format!("b = {}, ownership kind {}", bits, ownership)];
+            let len = 3 + rng.usize(14);
+            for _ in 0..len {
+                match rng.usize(10) {
+                    0..=3 => {
+                        let e = rng.usize(universe);
+                        s.insert(e);
+                        model.insert(e);
+                        trace.push(format!("insert({})", e));
+                    }
+                    4 | 5 => {
+                        s.empty();
+                        model.clear();
+                        trace.push("empty()".into());
+                    }
+                    6 => {
+                        s.universe();
+                        model = (0..universe).collect();
+                        trace.push("universe()".into());
+                    }
+                    7 => {
+                        let e = rng.usize(universe);
+                        // the environment of a lone set is private: a one-element set in the same
+                        // environment is made from a clone, or through a handle the caller kept
+                        let one = match keep.first() {
+                            Some(env) => BDDSet::from_element(e, bits, env),
+                            None => {
+                                let c = s.clone();
+                                c.empty();
+                                c.insert(e);
+                                c
+                            }
+                        };
+                        s.union(&one);
+                        model.insert(e);
+                        trace.push(format!("union(one-element set {{{}}})", e));
+                    }
+                    8 => {
+                        let c = s.clone();
+                        c.empty();
+                        drop(c);
+                        trace.push("clone().empty(), dropped".into());
+                    }
+                    _ => {
+                        if let Some((sib, sm)) = sibling.as_mut() {
+                            if rng.chance(1, 2) {
+                                sib.empty();
+                                sm.clear();
+                                trace.push("sibling.empty()".into());
+                            } else {
+                                let e = rng.usize(universe);
+                                sib.insert(e);
+                                sm.insert(e);
+                                trace.push(format!("sibling.insert({})", e));
+                            }
+                        } else if !keep.is_empty() && rng.chance(1, 3) {
+                            keep.pop();
+                            trace.push("caller drops an environment handle".into());
+                        }
+                    }
+                }
+                for e in 0..universe {
+                    if s.contains(e) != model.contains(&e) {
+                        return Err(format!("after {}: contains({}) = {}, reference set {:?}", trace.join("; "), e, !model.contains(&e), model));
+                    }
+                    if let Some((sib, sm)) = sibling.as_ref() {
+                        if sib.contains(e) != sm.contains(&e) {
+                            return Err(format!("after {}: sibling.contains({}) = {}, reference set {:?}", trace.join("; "), e, !sm.contains(&e), sm));
+                        }
+                    }
+                }
+            }
+            Ok((ownership, trace.join("; ")))
+        });
+        match r {
+            Ok(Ok((o, _))) => {
+                st.bump("lone_set_histories");
+                st.bump(&format!("lone_set_histories_ownership_{}", o));
+                st.nt.insert(mix(0x19_12, mix(seed, h)));
+            }
+            Ok(Err(m)) => st.violate("c19.membership", "C19:lone:wrong-membership".into(), m, case),
+            Err(c) => st.violate("c19.panic", format!("C19:lone:{}", c.signature()), format!("lone-set history {} (seed {}): {:?}", h, seed, c), case),
+        }
+    }
+}
+
 /// VERY LONG histories on one set: a query, then exactly N modifications (N around 2^8 and 2^16 and
 /// their multiples — where a narrow counter of modifications would wrap), then the same query
 /// first and all the others after it. The modifications are chosen so that the answer must have
@@ -910,6 +1053,10 @@ pub fn run(ctx: &Ctx) -> (Stats, Spec) {
         s.merge(mixed_width_job(ctx, job, ctx.tier.pick(60u64, 3_000u64)));
         s.merge(wraparound_job(ctx, job));
         s.merge(observed_queries_job(ctx, job, ctx.tier.pick(60u64, 2_000u64)));
+        {
+            let n = ctx.tier.pick(250u64, 20_000u64);
+            lone_set_histories(&mut s, ctx.seed, job as u64 * n, n);
+        }
         if job == 0 {
             s.merge(long_lived_env_job(ctx, ctx.tier.pick(1_400_000usize, 5_000_000usize)));
         }
@@ -920,7 +1067,7 @@ pub fn run(ctx: &Ctx) -> (Stats, Spec) {
         super::common::miri_tripwire(ctx, &mut st, 150);
     }
     let spec = Spec {
-        rule: "breadth-first over reference states: two sets sharing one environment, each (state pair, next operation — insert, union, intersect, complement, empty, universe, contains, and `X = Y.clone()`) executed on fresh real sets via the shortest history reaching the state, and again (b <= 2: always, b = 3: every fourth state) after all REDUNDANT steps of that state (operations that leave the reference state unchanged); then all memberships of both sets are read twice through contains() and the public bdd field is compared across the queries; plus histories on WIDE sets (b in {31, 32, 33, 40, 48, 63, 64} with usize elements or a user-defined element type, b in {65, 66, 72, 96, 127, 128} with a user-defined 128-bit element type) over pools of sampled elements, their one-bit neighbours and (b > 64) elements equal modulo 2^64; plus histories over six to eight sets of DIFFERENT widths (families {1,2,3}, {2,3,4,5}, {3,4}, {0,1,6}, {4,64}, {2,33,5}, {3,3,4,4}; two sets per width) in one environment (sets also re-made through from_element and from_bdd), all memberships of all sets read back after every step; plus histories of exactly 255 .. 131 072 [quick] / .. 262 144 [thorough] modifications of ONE set between two identical queries (inserts through the universe, unions with an empty set, universe / empty flips); plus queries UNDER OBSERVATION (while a reader holds a shared borrow of the public diagram cell; after a query whose user-defined element panicked half-way and was caught); plus ONE long history of two 64-bit sets in one environment that grows beyond 1.4 million [quick] / 5 million [thorough] nodes, memberships of the newest, older and never-inserted elements compared after every step; plus random histories of length 5-64 [quick] / 5-504 [thorough] with b in 2..4. distinct = (state pair before the last operation, last operation, b); non-trivial = both sets neither empty nor the universe.".into(),
+        rule: "breadth-first over reference states: two sets sharing one environment, each (state pair, next operation — insert, union, intersect, complement, empty, universe, contains, and `X = Y.clone()`) executed on fresh real sets via the shortest history reaching the state, and again (b <= 2: always, b = 3: every fourth state) after all REDUNDANT steps of that state (operations that leave the reference state unchanged); then all memberships of both sets are read twice through contains() and the public bdd field is compared across the queries; plus histories on WIDE sets (b in {31, 32, 33, 40, 48, 63, 64} with usize elements or a user-defined element type, b in {65, 66, 72, 96, 127, 128} with a user-defined 128-bit element type) over pools of sampled elements, their one-bit neighbours and (b > 64) elements equal modulo 2^64; plus histories over six to eight sets of DIFFERENT widths (families {1,2,3}, {2,3,4,5}, {3,4}, {0,1,6}, {4,64}, {2,33,5}, {3,3,4,4}; two sets per width) in one environment (sets also re-made through from_element and from_bdd), all memberships of all sets read back after every step; plus histories of exactly 255 .. 131 072 [quick] / .. 262 144 [thorough] modifications of ONE set between two identical queries (inserts through the universe, unions with an empty set, universe / empty flips); plus queries UNDER OBSERVATION (while a reader holds a shared borrow of the public diagram cell; after a query whose user-defined element panicked half-way and was caught); plus histories of a set that is (almost) ALONE in its environment (BDDSet::new; with_env with zero, one or two caller handles, with or without a sibling set; b in {1,2,3,4,6}; insert / empty / universe / union with a one-element set / clone-and-drop, all memberships after every step); plus ONE long history of two 64-bit sets in one environment that grows beyond 1.4 million [quick] / 5 million [thorough] nodes, memberships of the newest, older and never-inserted elements compared after every step; plus random histories of length 5-64 [quick] / 5-504 [thorough] with b in 2..4. distinct = (state pair before the last operation, last operation, b); non-trivial = both sets neither empty nor the universe.".into(),
         assumptions: vec![
             "only elements < 2^b are used (the statement speaks of b-bit integers)".into(),
             "`complement` is set difference, as the statement says".into(),
@@ -935,6 +1082,7 @@ pub fn run(ctx: &Ctx) -> (Stats, Spec) {
             ("wide_set_histories_with_a_user_defined_element_type".into(), 50, "sets over a user-defined element type never exercised".into()),
             ("mixed_width_histories".into(), 500, "sets of different widths in one environment never exercised".into()),
             ("long_lived_environment_queries".into(), 500, "long-lived environment never exercised".into()),
+            ("lone_set_histories".into(), 2_000, "sets alone in their environment never exercised".into()),
             ("queries_as_last_op".into(), 500, "queries never exercised as last operation".into()),
             ("distinct_nontrivial".into(), 1_000, "too few non-trivial cases".into()),
         ],
@@ -947,6 +1095,16 @@ pub fn replay(_ctx: &Ctx, _monitor: &str, case: &Value, st: &mut Stats) {
         let mut c2 = _ctx.clone();
         c2.seed = case.get("seed").and_then(|j| j.as_u64()).unwrap_or(_ctx.seed);
         st.merge(long_lived_env_job(&c2, case.get("target").and_then(|j| j.as_u64()).unwrap_or(1_400_000) as usize));
+        return;
+    }
+    if case.get("kind").and_then(|k| k.as_str()) == Some("lone") {
+        let seed = case.get("seed").and_then(|j| j.as_u64()).unwrap_or(_ctx.seed);
+        let h = case.get("history").and_then(|j| j.as_u64()).unwrap_or(0);
+        lone_set_histories(st, seed, h, 1);
+        return;
+    }
+    if case.get("kind").and_then(|k| k.as_str()) == Some("literals") {
+        literal_elements(st);
         return;
     }
     if case.get("kind").and_then(|k| k.as_str()) == Some("wraparound") {
